@@ -193,7 +193,8 @@ func solve(query string, workDir string, tag string, timeoutSecs int, seed int) 
 			sb.WriteString(fmt.Sprintf("[%s %s %.1fs] %s\n", a.solver, a.status, a.secs, strings.TrimSpace(o)))
 		}
 		for _, a := range answers {
-			if a.status == "error" && res.Status != "timeout" {
+			if a.status == "error" && a.solver != "cvc5" {
+				// a z3 parse/sort error means the generated query is malformed: an engine fault
 				res.Status = "error"
 			}
 		}
